@@ -145,3 +145,24 @@ fire(P, "process-data-plain-str-of-data",
 silent(P, "stringify-data-local-renamed",
        [(BASEPY, "    arr = np.ascontiguousarray(qp.math.to_numpy(x))\n    return f\"{arr.shape}{arr.dtype}{hashlib.sha256(arr.tobytes()).hexdigest()}\"",
                  "    dense = np.ascontiguousarray(qp.math.to_numpy(x))\n    return f\"{dense.shape}{dense.dtype}{hashlib.sha256(dense.tobytes()).hexdigest()}\"")])
+
+# --- R-C05-order / R-C05-stale
+_CM = "pennylane/core/measurements.py"
+_QS = "pennylane/core/qscript.py"
+fire("C05", "measurement-hash-forgets-wire-order",
+     (_CM, "            tuple(self.wires.tolist()),", "            frozenset(self.wires.tolist()),"), "R-C05-order", "MeasurementProcess.__hash__")
+fire("C05", "mutual-info-hash-sorts-subsystem-wires",
+     ("pennylane/measurements/mutual_info.py", "            tuple(self.raw_wires[0].tolist()),", "            tuple(sorted(self.raw_wires[0].tolist())),"),
+     "R-C05-order", "MutualInfoMP.__hash__")
+fire("C05", "copy-carries-memoised-hash-under-truthiness-guard",
+     (_QS, "        # copy cached properties when relevant\n",
+           "        if \"hash\" in self.__dict__ and not any(update.get(k) for k in (\"operations\", \"measurements\", \"shots\", \"trainable_params\")):\n"
+           "            new_qscript.__dict__[\"hash\"] = self.__dict__[\"hash\"]\n        # copy cached properties when relevant\n"),
+     "R-C05-stale", "QuantumScript.copy")
+fire("C05", "copy-carries-memoised-hash-when-only-operations-kept",
+     (_QS, "        # copy cached properties when relevant\n",
+           "        if \"operations\" not in update and \"hash\" in self.__dict__:\n            new_qscript.__dict__[\"hash\"] = self.__dict__[\"hash\"]\n        # copy cached properties when relevant\n"),
+     "R-C05-stale", "QuantumScript.copy")
+silent("C05", "copy-carries-memoised-hash-only-for-plain-copies",
+       [(_QS, "        # copy cached properties when relevant\n",
+              "        if not update and \"hash\" in self.__dict__:\n            new_qscript.__dict__[\"hash\"] = self.__dict__[\"hash\"]\n        # copy cached properties when relevant\n")])
